@@ -88,6 +88,24 @@ func init() {
 			s := c06Sess{kind: 0, o: defaultWOpts, roots: []cid.Cid{root}, fin: true,
 				puts: []Blk{{mkCid(1, 0x55, mh.SHA2_256, -1, d1), d1}, {mkCid(1, 0x55, mh.SHA2_256, -1, d2), d2}}}
 			c06RunSession(c, s, 1, "witness")
+			// the resumed session of the resume-phase example (coq/proofs/CrashAbs.v, c6r_sess): the
+			// first process put d1 and finalized; the crashing one resumes (Truncate 158, zeroed
+			// header in two writes: class resume-phase), puts d2, finalizes
+			sr := s
+			sr.pre = []crSeg{{cut: "finalize", blks: s.puts[:1]}}
+			sr.puts = s.puts[1:]
+			c06RunSession(c, sr, 1, "witness-resumed-after-finalize")
+			// MaxAllowedSectionSize below the sections written (Put does not check it; Resume's
+			// re-index loop must not either): a fresh process, and one that resumes over such a section
+			lo := defaultWOpts
+			lo.maxS = 64
+			bigd := bytes.Repeat([]byte("over-the-section-limit "), 5) // 115 bytes of data
+			big := Blk{mkCid(1, 0x55, mh.SHA2_256, -1, bigd), bigd}
+			sl := c06Sess{kind: 1, o: lo, roots: []cid.Cid{root}, fin: true, puts: []Blk{big, s.puts[0]}}
+			c06RunSession(c, sl, 1, "section-limit-below-block")
+			sl2 := c06Sess{kind: 0, o: lo, roots: []cid.Cid{root}, fin: true,
+				pre: []crSeg{{cut: "discard", blks: []Blk{big}}}, puts: []Blk{s.puts[0]}}
+			c06RunSession(c, sl2, 1, "section-limit-below-block-resumed")
 		}
 		nSess := 11 * c.Scale
 		for i := 0; i < nSess; i++ {
@@ -113,7 +131,11 @@ func init() {
 			what := "fresh"
 			if i%3 == 2 {
 				// the crashing process itself started by resuming
-				s.pre = []crSeg{{cut: pick(r, []string{"discard", "finalize"}), blks: c06Blocks(r, 1+r.Intn(2))}}
+				cut := pick(r, []string{"discard", "finalize"})
+				if i < 6 {
+					cut = []string{"finalize", "discard"}[(i/3)%2] // both kinds of resume in every run
+				}
+				s.pre = []crSeg{{cut: cut, blks: c06Blocks(r, 1+r.Intn(2))}}
 				what = "resumed-after-" + s.pre[0].cut
 			}
 			c06RunSession(c, s, 1, what)
